@@ -129,6 +129,7 @@ package phase2
 // entering edge: a non-tree edge other than e from the head component of e to its tail component, of minimum slack,
 // the first such edge of the list on ties; nil exactly when there is no candidate
 //@ spec nsPos(n *Node) int
+//@ spec nsEdgePos(e *Edge) int
 //@ spec nsFeasible(g *DGraph) bool = forall i int :: 0 <= i && i < len(g.Edges) ==> g.Edges[i] != nil && g.Edges[i].From != nil && g.Edges[i].To != nil
 //@       && 0 <= nsPos(g.Edges[i].From) && nsPos(g.Edges[i].From) < len(g.Nodes) && g.Nodes[nsPos(g.Edges[i].From)] == g.Edges[i].From
 //@       && 0 <= nsPos(g.Edges[i].To) && nsPos(g.Edges[i].To) < len(g.Nodes) && g.Nodes[nsPos(g.Edges[i].To)] == g.Edges[i].To
@@ -208,11 +209,23 @@ package phase2
 // entering edge handed to exchange has minimum slack among the candidates (minSlackNonTreeEdge's ensures[min] meets
 // exchange's requires[min]). What the loop starts from - feasibleTree leaves a feasible layering whose edge ends are
 // nodes of the list - and the cut fact (requires[cut] of exchange) are explicit, reported assumptions.
+// After the loop: normalize shifts every node of the list by the same amount, so spans are unchanged; with vertical
+// balancing (the default) vbalance's own contract then keeps every out-edge at least Delta layers down. The bridge from
+// the edge list to the out-lists (every out-list entry is an edge of the list, assume[outlisted]) is an explicit
+// assumption about Populate/Reverse; horizontal balancing (option 2) is outside this contract.
 //@ func execNetworkSimplex
 //@   requires g != nil && len(g.Nodes) >= 1
 //@   assume[treefeasible|C03] after "p.feasibleTree(g)" : nsFeasible(g)
 //@   assume[cut|C03] before "p.exchange(e, f, g)" : forall i int :: 0 <= i && i < len(g.Edges) && p.inHeadComponent(g.Edges[i].From, e) && !p.inHeadComponent(g.Edges[i].To, e) ==>
 //@       g.Edges[i] != e && !g.Edges[i].IsInSpanningTree
+//@   assert[normfeasible|C03] before "switch params.NetworkSimplexBalance" : nsFeasible(g)
+//@   assume[outlisted|C03] before "switch params.NetworkSimplexBalance" : outWF() && inWF() && adjSym()
+//@       && (forall m *Node, k int :: m != nil && 0 <= k && k < len(m.Out) ==> 0 <= nsEdgePos(m.Out[k]) && nsEdgePos(m.Out[k]) < len(g.Edges) && g.Edges[nsEdgePos(m.Out[k])] == m.Out[k])
+//@   assert[bridge|C03] before "vbalance(g)" : forall m *Node, k int :: m != nil && 0 <= k && k < len(m.Out) ==>
+//@       g.Edges[nsEdgePos(m.Out[k])].To.Layer - g.Edges[nsEdgePos(m.Out[k])].From.Layer >= g.Edges[nsEdgePos(m.Out[k])].Delta
+//@   assert[bridge3|C03] before "vbalance(g)" : feasibleOut()
+//@   ensures[feasible|C03] params.NetworkSimplexBalance == 1 ==> feasibleOut()
+//@   ensures[feasible0|C03] params.NetworkSimplexBalance != 1 && params.NetworkSimplexBalance != 2 ==> nsFeasible(g)
 //@   loop for(e!=nil)#1
 //@     invariant[feas|C03] nsFeasible(g)
 //@   ensures[nonneg|C01] forall j int :: 0 <= j && j < len(g.Nodes) ==> g.Nodes[j].Layer >= 0
